@@ -1,7 +1,7 @@
 #!/bin/bash
-# eval_mutant.sh <Cxx> — confirm a seeded change in its scratch worktree /tmp/mut/<Cxx>:
+# eval_mutant.sh <Cxx> — confirm a seeded change in its scratch worktree $MUTROOT/<Cxx> (default /tmp/mut):
 # suite passes with the change, demo fails with it, demo passes without it.
-P=$1; D=/tmp/mut/$P; L=/tmp/mut/$P.eval.log
+P=$1; R=${MUTROOT:-/tmp/mut}; D=$R/$P; L=$R/$P.eval.log
 export GOFLAGS=-mod=mod GOPROXY=off GOSUMDB=off GOTOOLCHAIN=local
 cd $D || exit 2
 demo=$(cat .mutant/demo_path.txt | tr -d '\n ')
@@ -9,11 +9,11 @@ pkg=./$(dirname $demo)
 {
 echo "== status"; git status --short
 echo "== patch applies to HEAD?"; git stash list | head -2
-git diff -- . ':!*_test.go' > /tmp/mut/$P.cur.diff
-if ! diff -q <(grep '^[+-]' /tmp/mut/$P.cur.diff | grep -v '^+++\|^---') <(grep '^[+-]' .mutant/patch.diff | grep -v '^+++\|^---') >/dev/null; then echo "WARNING: worktree diff differs from patch.diff"; fi
-mv $demo /tmp/mut/$P.demo.go.aside
+git diff -- . ':!*_test.go' > $R/$P.cur.diff
+if ! diff -q <(grep '^[+-]' $R/$P.cur.diff | grep -v '^+++\|^---') <(grep '^[+-]' .mutant/patch.diff | grep -v '^+++\|^---') >/dev/null; then echo "WARNING: worktree diff differs from patch.diff"; fi
+mv $demo $R/$P.demo.go.aside
 echo "== build+suite with change"; go build ./... && go test -vet=off -count=1 ./... 2>&1 | tail -8; echo "suite_rc=${PIPESTATUS[0]}"
-mv /tmp/mut/$P.demo.go.aside $demo
+mv $R/$P.demo.go.aside $demo
 echo "== demo with change"; go test -vet=off -count=1 -run 'TestMutantDemo$' $pkg 2>&1 | tail -5; echo "demo_with_rc=${PIPESTATUS[0]}"
 git apply -R .mutant/patch.diff && { echo "== demo without change"; go test -vet=off -count=1 -run 'TestMutantDemo$' $pkg 2>&1 | tail -3; echo "demo_without_rc=${PIPESTATUS[0]}"; git apply .mutant/patch.diff; }
 } > $L 2>&1
